@@ -1397,6 +1397,153 @@ func checkC08(w *World, r *Report) {
 			return true
 		})
 	}
+	// R08.16: which dependencies escape the presence check. Every `continue` of the dependency
+	// loop is one of the exemptions resolution itself honours: a nil entry, an optional
+	// dependency, a group (which may be empty), an unkeyed built-in of the reserved table. Any
+	// other exemption (a second table of "default" types, a naming convention) lets a
+	// registration set through that fails with 'service not found' at resolution.
+	{
+		r.Rule("R08.16", 2, "a dependency escapes the presence check only as nil, optional, group or reserved built-in: every skip of the dependency loop is one of those exemptions")
+		preds := reservedPredicateCalls(w, fi, dep)
+		builtinVars := map[types.Object]bool{}
+		ast.Inspect(inner.Body, func(x ast.Node) bool {
+			if as, ok := x.(*ast.AssignStmt); ok && len(as.Lhs) == 2 && len(as.Rhs) == 1 {
+				if ix, ok := unparen(as.Rhs[0]).(*ast.IndexExpr); ok {
+					if o := objOf(info, ix.X); o != nil && o.Name() == "reservedTypes" {
+						builtinVars[objOf(info, as.Lhs[1])] = true
+					}
+				}
+			}
+			return true
+		})
+		var split func(e ast.Expr, op token.Token) []ast.Expr
+		split = func(e ast.Expr, op token.Token) []ast.Expr {
+			if be, ok := unparen(e).(*ast.BinaryExpr); ok && be.Op == op {
+				return append(split(be.X, op), split(be.Y, op)...)
+			}
+			return []ast.Expr{unparen(e)}
+		}
+		var exemption func(ainfo *types.Info, e ast.Expr, d types.Object, depth int) bool
+		var allowed func(ainfo *types.Info, cond ast.Expr, d types.Object, depth int) bool
+		exemption = func(ainfo *types.Info, e ast.Expr, d types.Object, depth int) bool {
+			e = unparen(e)
+			switch x := e.(type) {
+			case *ast.Ident:
+				if builtinVars[ainfo.Uses[x]] {
+					return true
+				}
+			case *ast.SelectorExpr:
+				if x.Sel.Name == "Optional" && objOf(ainfo, x.X) == d {
+					return true
+				}
+			case *ast.BinaryExpr:
+				if x.Op == token.EQL && ((objOf(ainfo, x.X) == d && isNilIdent(ainfo, x.Y)) || (objOf(ainfo, x.Y) == d && isNilIdent(ainfo, x.X))) {
+					return true
+				}
+				mentionsGroup := func(y ast.Expr) bool {
+					found := false
+					ast.Inspect(y, func(z ast.Node) bool {
+						if sel, ok := z.(*ast.SelectorExpr); ok && sel.Sel.Name == "Group" && objOf(ainfo, sel.X) == d {
+							found = true
+						}
+						return true
+					})
+					return found
+				}
+				if (x.Op == token.NEQ || x.Op == token.GTR) && (mentionsGroup(x.X) || mentionsGroup(x.Y)) {
+					return true
+				}
+			case *ast.CallExpr:
+				for _, pc := range preds {
+					if ainfo == info && exprStr(e) == pc {
+						return true
+					}
+				}
+				// a private one-line predicate over the dependency: judged by what it returns
+				if cal := callee(ainfo, x); cal != nil && depth > 0 {
+					if t := w.Decls[cal]; t != nil && t.Decl.Body != nil && len(t.Decl.Body.List) == 1 {
+						if ret, ok := t.Decl.Body.List[0].(*ast.ReturnStmt); ok && len(ret.Results) == 1 {
+							for ai, a := range x.Args {
+								if objOf(ainfo, a) == d {
+									if ps := paramObjs(t); ai < len(ps) && ps[ai] != nil {
+										return allowed(t.Pkg.TypesInfo, ret.Results[0], ps[ai], depth-1)
+									}
+								}
+							}
+							// a method of the dependency itself: dep.isOptional()
+							if rcv, _, isM := methodCall(x); isM && objOf(ainfo, rcv) == d && t.Decl.Recv != nil && len(t.Decl.Recv.List[0].Names) == 1 {
+								return allowed(t.Pkg.TypesInfo, ret.Results[0], t.Pkg.TypesInfo.Defs[t.Decl.Recv.List[0].Names[0]], depth-1)
+							}
+						}
+					}
+				}
+			}
+			return false
+		}
+		allowed = func(ainfo *types.Info, cond ast.Expr, d types.Object, depth int) bool {
+			for _, dj := range split(cond, token.LOR) {
+				ok := false
+				for _, c := range split(dj, token.LAND) {
+					if exemption(ainfo, c, d, depth) {
+						ok = true
+					}
+				}
+				if !ok {
+					return false
+				}
+			}
+			return true
+		}
+		nSkip := 0
+		ast.Inspect(inner.Body, func(x ast.Node) bool {
+			ifs, ok := x.(*ast.IfStmt)
+			if !ok || len(ifs.Body.List) == 0 {
+				return true
+			}
+			br, ok := ifs.Body.List[len(ifs.Body.List)-1].(*ast.BranchStmt)
+			if !ok || br.Tok != token.CONTINUE {
+				return true
+			}
+			nSkip++
+			good := allowed(info, ifs.Cond, dep, 2)
+			// `if _, ok := services[key]; ok { continue }`: the presence test itself, in its "found" form
+			hitVar := func(as *ast.AssignStmt) types.Object {
+				if as != nil && len(as.Lhs) == 2 && len(as.Rhs) == 1 {
+					if ix, isIx := unparen(as.Rhs[0]).(*ast.IndexExpr); isIx && fieldOf(info, ix.X) == rg.services {
+						return objOf(info, as.Lhs[1])
+					}
+				}
+				return nil
+			}
+			if id, isId := unparen(ifs.Cond).(*ast.Ident); !good && isId {
+				if as, isAs := ifs.Init.(*ast.AssignStmt); isAs && hitVar(as) != nil && hitVar(as) == info.Uses[id] {
+					good = true
+				}
+				ast.Inspect(inner.Body, func(y ast.Node) bool {
+					if as, isAs := y.(*ast.AssignStmt); isAs && as.Pos() < ifs.Pos() && hitVar(as) != nil && hitVar(as) == info.Uses[id] {
+						good = true
+					}
+					return true
+				})
+			}
+			// a skip nested in a branch that is itself one of the exemptions
+			if !good {
+				conds, vals := controllingCondsInfo(info, inner.Body, ifs.Pos())
+				for i, cd := range conds {
+					if vals[i] && allowed(info, cd, dep, 2) {
+						good = true
+					}
+				}
+			}
+			r.Check(good, "R08.16", fmt.Sprintf("%s#skip/%d", fi.Name(), nSkip), ifs.Pos(), true,
+				"the dependency is skipped as nil, optional, a group or an unkeyed reserved built-in",
+				"the presence check skips a dependency on the condition "+exprStr(ifs.Cond)+", which is none of the exemptions resolution honours (nil entry, optional, group, reserved built-in): a registration set with such a dependency missing builds, and the service fails with 'service not found' when it is resolved")
+			return true
+		})
+		if nSkip == 0 {
+			r.OK("R08.16", fi.Name()+"#skip/none", fi.Decl.Pos(), false, "the dependency loop skips nothing by `continue` (exemptions, if any, are judged by R08.1a at the error exit)")
+		}
+	}
 	// R08.1b: no dependence on the dependent's lifetime
 	{
 		bad := ""
